@@ -16,6 +16,8 @@ THEOREMS = {
     'C06_frame_closure': 'the view of a key is determined by its crossref closure: databases with the same entries on a crossref-closed key set agree on it - uncited, unreferenced entries and the order of entries are irrelevant',
     'C06_frame_read': 'reduction of the READ hypothesis: equal preamble, reader reports and citation resolution (C05) plus agreement on the resolved citations make the two READ steps leave states that differ in the database only',
     'C06_frame_run': 'two runs of a style pre;READ;post whose READ steps leave states differing in the database only, with databases agreeing on the resolved citations, are equal: same .bbl, reports, printed output or error',
+    'C06_frame_reports': 'reports made before (e.g. by READ) do not matter: from states differing in the database and in the reports made so far a READ-free program gives the same error or final states differing only in the database and that prefix - same output lines, printed text and appended reports',
+    'C06_frame_run_reports': 'two runs of a style pre;READ;post whose READ steps leave states differing in the database and in their reports, with databases agreeing on the resolved citations: same error, or same .bbl, printed output and reports after READ',
     'C06_frame_uncited_alt': 'adding or removing an uncited, not-yet-referenced entry in the entry list a bib_format reader delivers does not change the run at all',
     'C06_one_item_per_citation': 'for the schema READ; [SORT;] ITERATE {f} (and REVERSE) with f emitting exactly one item per call: one item per resolved citation, in citation order / reverse order / sortByKey order = a permutation ascending by sort.key$ in which equal keys keep citation order (stable)',
     'C06_sort_order_total': "the sort compares keys with a strict total order (Python's < on str): ties are exactly equal keys",
@@ -25,6 +27,7 @@ THEOREMS = {
     'C06_frame_nonvacuous': 'non-vacuity: the example databases agree on the cited keys, differ as databases, and the state after READ is a good state',
     'C06_frame_read_nonvacuous': 'non-vacuity: the hypotheses of the READ reduction hold for the two example readers',
     'C06_frame_run_nonvacuous': 'non-vacuity: the hypotheses of the run theorem hold for the two example readers and the runs are equal with the expected .bbl',
+    'C06_frame_run_reports_nonvacuous': 'non-vacuity: the example readers satisfy the hypotheses of the reports variants (good READ state, agreeing databases)',
     'C06_frame_uncited_alt_nonvacuous': 'non-vacuity: an uncited entry standing between two cited ones satisfies the side condition',
     'C06_one_item_per_citation_nonvacuous': 'non-vacuity: f = {cite$ write$ newline$} satisfies the hypotheses for every state and key; the three tiny styles give citation, reverse and sort-key order; a concrete stable sort',
 }
